@@ -436,18 +436,25 @@ func attackCase(rng *rand.Rand, tmp string, name string, big bool, out func(Ev))
 		_ = r.packet(lib.Topic_BLOCK, true, body(2, 100))
 	}
 	time.Sleep(300 * time.Millisecond)
-	// is the connection closed? a further good message must not arrive if it is
+	// a further good message must not arrive if the connection is closed
 	_ = r.packet(lib.Topic_TX, true, body(9, 400))
 	if !expectClose {
 		out(Ev{E: "send", Dir: "ab", Id: 9, Topic: int(lib.Topic_TX), Len: 400, N: 1, Ok: true})
 	}
 	got := drain(pb, km, "ab", 10, 700*time.Millisecond, out)
+	// is the connection closed? probe with further (ignored) messages; on a loaded machine the receiver may need a while
 	closed := false
-	_ = c1.SetWriteDeadline(time.Now().Add(300 * time.Millisecond))
-	if e := r.packet(lib.Topic_TX, true, body(10, 50)); e != nil {
-		closed = true
-	} else {
-		got += drain(pb, km, "ab", 1, 300*time.Millisecond, func(e Ev) {
+	limit := 1
+	if expectClose {
+		limit = 50
+	}
+	for i := 0; i < limit && !closed; i++ {
+		_ = c1.SetWriteDeadline(time.Now().Add(200 * time.Millisecond))
+		if e := r.packet(lib.Topic_TX, true, body(10, 50)); e != nil {
+			closed = true
+			break
+		}
+		got += drain(pb, km, "ab", 1, 100*time.Millisecond, func(e Ev) {
 			if e.Id == 10 {
 				return
 			}
